@@ -1,14 +1,20 @@
 import SimplicityModel.Driver.ProgUtil
 import SimplicityModel.Routes
+import SimplicityModel.RoutesExec
+import SimplicityModel.PruneIds
 /-! C12: the routes by which witness values reach a redemption program.
 
 `route U P|N <plan> [T:…] V:i:<type>:<compact bits>…`            `finalize_unpruned` with the
       candidate values `V` (of their own types) attached at construction
 `route F P|N <plan> [T:…] N:i:<name>… M:<name>:<type>:<bits>…`   `Forest::to_witness_node(&map)` with
       witness node `i` named `N`, then `finalize_unpruned`
-`route P P|N <plan> [T:…] V:… X:i:L|R… [E:fail]`                 `finalize_pruned`; `X` = the case nodes
-      of which the real run used only the left / only the right branch; `E:fail` = the real run failed;
-      re-inference as the code does it (`Routes.codeLeaks`: constraints of removed branches stay)
+`route P P|N <plan> [T:… C:… J:…] V:… X:i:L|R… [E:fail]`         `finalize_pruned`, run included: the model
+      elaborates the unpruned program, runs it with the tracker (`Routes.finalizePruned`: identities =
+      `Prog.ihrs`, jets = the recorded calls `J:`) and prunes by its own record.  `X` (the case nodes of
+      which the real run used only the left / only the right branch) and `E:fail` (the real run
+      failed) are what the real run did: the model's run must agree with them (`model-tracker-differs`,
+      `model-run-fails`, `model-run-succeeds` otherwise); re-inference as the code does it
+      (`Routes.codeLeaks`)
 `route D <plan> [T:…] B:<bits>`                                   the witness stream of `RedeemNode::decode`
 → `ok W:i:<target type>:<compact bits>…` (every witness node of the resulting program) | `err` |
   `err-exec`.  Runs `Routes.routeU/forestRoute/routeP/decodeRoute`, the functions the theorems of
@@ -75,11 +81,34 @@ def routeOp (kind : String) (program : Bool) (toks : List String) : String :=
         if kind = "U" then showOutcome (routeU jt p program (lookupNat e.cands))
         else if kind = "F" then showOutcome (forestRoute jt p program (lookupNat e.names) (lookupStr e.map))
         else if kind = "P" then
-          if e.execFailed then
-            match routeU jt p program (lookupNat e.cands) with
-            | .ok _ _ => "err-exec"
-            | o => showOutcome o
-          else showOutcome (routeP jt codeLeaks p program (lookupNat e.cands) (cutOf p (lookupNat e.sides)))
+          let cand := lookupNat e.cands
+          match routeU jt p program cand with
+          | .ok ar r =>
+            let jetCmr := fun n => some ((ex.jetCmr n).getD 0)
+            match ihrs jetCmr p ar (witBits r), cmrs jetCmr p with
+            | some an, some cm =>
+              let re : RunEnv := { ids := fun i => (an.getD i (0, 0)).2, cmr := cm, jets := ex.jetSem }
+              if !planOK p then "bad-plan" else
+              match trackedRun p ar r re with
+              | .noTerm => "model-elab-failed"
+              | .failed _ =>
+                if e.execFailed then
+                  match finalizePruned jt codeLeaks p program cand re with
+                  | .err => "err-exec"
+                  | o => showOutcome o
+                else "model-run-fails"
+              | .ok tr =>
+                if e.execFailed then "model-run-succeeds" else
+                -- the model's tracker against the real one, on the case nodes of the program
+                let reach := reachable p
+                let agree := (List.range p.size).all fun i =>
+                  match reach.getD i false, p[i]? with
+                  | true, some (.case _ _) => sidesOf re.ids tr.sides i == lookupNat e.sides i
+                  | _, _ => true
+                if agree then showOutcome (finalizePruned jt codeLeaks p program cand re)
+                else "model-tracker-differs"
+            | _, _ => "model-annot-failed"
+          | o => showOutcome o
         else if kind = "D" then
           let o := decodeRoute jt p e.bits
           -- the recursive reader of `Routes` against the loop of `Prog/Codec.lean`
